@@ -89,6 +89,42 @@ def reverse_of(P, g):
     return None
 
 
+def _float_bounded(B, op, bb):
+    """is the float operand bounded on both sides by comparisons with constants that dominate bb?
+    (x < c / x <= c on the taken edge bounds it above, x > c / x >= c below; |x| < c bounds both; the negations on the other edge)"""
+    from ..ranges import canon
+    from ..core import dominating_edges
+    c = canon(B, op)
+    up = lo = False
+    for (src, vals, dst) in dominating_edges(B, bb):
+        sb = B.switch_bool_edges(src)
+        if not sb or sb[0][0] != 'bin':
+            continue
+        rv = sb[0][2]
+        opn = rv['op']
+        if opn not in ('Lt', 'Le', 'Gt', 'Ge'):
+            continue
+        truth = dst == sb[1]
+        for side, other in (('a', 'b'), ('b', 'a')):
+            x = canon(B, rv[side])
+            is_abs = isinstance(x, tuple) and x and x[0] == 'call' and str(x[1]).endswith('::abs') and canon(B, B.blocks[x[2]]['t']['args'][0]) == c
+            if x != c and not is_abs:
+                continue
+            if B.origin(rv[other])[0] != 'const':
+                continue
+            # relation as seen from x: x OP const
+            rel = opn if side == 'a' else {'Lt': 'Gt', 'Le': 'Ge', 'Gt': 'Lt', 'Ge': 'Le'}[opn]
+            if not truth:
+                rel = {'Lt': 'Ge', 'Le': 'Gt', 'Gt': 'Le', 'Ge': 'Lt'}[rel]
+            if rel in ('Lt', 'Le'):
+                up = True
+                if is_abs:
+                    lo = True
+            elif not is_abs:
+                lo = True
+    return up and lo
+
+
 def run(ctx):
     P = ctx.P
     tabs = {}
@@ -286,6 +322,28 @@ def run(ctx):
                         ctx.bad('C11.4-exact-numbers', inst, '%s is converted to f64 before comparing: integers above 2^53 are rounded (2^53 and 2^53+1 both compare Equal to 9007199254740992.0)' % st['rv']['from'],
                                 ctx.where(FB, ln=st['ln']), key='CAST:%s:int-as-f64' % p)
 
+    # the other direction: a float narrowed to an integer saturates (1e19 as i64 == i64::MAX) and drops the fraction
+    ctx.rule('C11.4-float-not-narrowed', 'no comparison on the number path narrows a float to an integer with `as` unless the interval analysis shows it lies within the integer type: `f as i64` saturates, '
+             'so every float beyond the range collapses onto i64::MAX / i64::MIN and compares Equal to it while those floats differ among themselves', floor=0)
+    n_fn = 0
+    for root in (CMP_O, CMP_B):
+        if root not in ctx.F.bodies:
+            continue
+        for p_ in sorted(q for q in P.reachable_from([root]) if ctx.F.bodies[q]['crate'] == 'erltf' and ('compare' in q or 'bigint' in q or q == root)):
+            FB = P.B(p_)
+            for bb, j, st in FB.stmts():
+                if st['k'] == '=' and st['rv']['k'] == 'cast' and st['rv'].get('ck') == 'FloatToInt':
+                    n_fn += 1
+                    if _float_bounded(FB, st['rv']['op'], bb):
+                        ctx.ok('C11.4-float-not-narrowed', '%s:%s->%s' % (p_.rsplit('::', 1)[-1], st['rv'].get('from'), st['rv'].get('to')),
+                               'the float is bounded from above and from below by dominating comparisons before it is narrowed', ctx.where(FB, ln=st['ln']))
+                        continue
+                    ctx.bad('C11.4-float-not-narrowed', '%s:%s->%s' % (p_.rsplit('::', 1)[-1], st['rv'].get('from'), st['rv'].get('to')),
+                            '%s narrows a float to %s with `as`: the cast saturates at the ends of the integer range and truncates the fraction, so distinct floats are compared as one integer' % (p_.rsplit('::', 1)[-1], st['rv'].get('to')),
+                            ctx.where(FB, ln=st['ln']), key='CAST:%s:float-as-int' % p_)
+    if n_fn == 0:
+        ctx.ok('C11.4-float-not-narrowed', 'comparators', 'no float is narrowed to an integer on the comparison path')
+
     ctx.rule('C11.4-bigint-truncation', 'the 8-digit reader bigint_to_u64 is only applied to operands known to have at most 8 digits', floor=2)
     from ..families import check_bigint_truncation
     check_bigint_truncation(ctx, P, 'C11.4-bigint-truncation')
@@ -339,6 +397,14 @@ def run(ctx):
             diff = sorted(str(k) for k in ((bo - bb_) + (bb_ - bo)))[:4]
             ctx.bad('C11.5-twin-helpers', h, 'the copy in borrowed.rs performs different operations from the one in term.rs (%s): the two term types order some pair of numbers differently, '
                     'or one of the copies is wrong' % '; '.join(diff), ctx.where(Hb), key='TWIN:helper:%s' % h)
+
+    # "the zero-copy type orders every pair as the owned type does": each comparator follows the recipes of the term order
+    if not getattr(ctx, '_in_c12', False) and type(ctx).__name__ != 'SubCtx':
+        ctx.rule('C11.5-order-recipes', 'both comparators follow the same recipe per kind of term - rank table, maps by size then all keys then all values, tuples by size first, lists element-wise, big integers by sign, length and '
+                 'most significant digit, numbers by value (rules C12.1 - C12.5 re-run): a comparator that departs from the recipe in one of the two types orders some pair differently from the other', floor=20)
+        from ..order import SubCtx as _Sub11
+        from . import c12 as _c12
+        _c12.run(_Sub11(ctx, 'C11.5-order-recipes', 'c12', allow=('C12.1-rank-table', 'C12.2-number-shapes', 'C12.2-nothing-narrowed', 'C12.3-bigint-digits', 'C12.3-bigint-signs', 'C12.4-map-recipe', 'C12.5-recipes')))
 
 
 def _show(r):
